@@ -112,12 +112,22 @@ def atom_axioms(z, atoms, extra_pairs=True):
             ax.append(x >= -1)
             ax.append(x <= 1)
             trig.setdefault(T.rf_key(argnf[0]), {})[name] = (i, args[0])
+            an, ad = argnf[0]
+            if T.p_is_const(ad) and T.p_degree(an) <= 1:
+                u = z.poly(T.p_scale(an, 1 / ad[()]))
+                if name == "sin":   # |sin u| <= |u|
+                    ax += [z3.Implies(u >= 0, x <= u), z3.Implies(u <= 0, x >= u)]
+                else:               # cos u >= 1 - u^2/2
+                    ax.append(2 * x >= 2 - u * u)
         elif name == "atan2":
             # phi = atan2(y, x):  -pi < phi <= pi, sign facts by quadrant (range axioms)
             (yn, yd), (xn, xd) = argnf
             y = z.poly(yn) if T.p_is_const(yd) else z.poly(yn) * z.poly(yd)
             xx = z.poly(xn) if T.p_is_const(xd) else z.poly(xn) * z.poly(xd)
             ax += [x > -z.pi, x <= z.pi]
+            # |phi| >= |sin phi| = |y|/rho
+            rho = z3.Real("rho_%d" % i)
+            ax += [rho >= 0, rho * rho == xx * xx + y * y, z3.Implies(y >= 0, x * rho >= y), z3.Implies(y <= 0, x * rho <= y)]
             ax += [z3.Implies(y > 0, z3.And(x > 0, x < z.pi)), z3.Implies(y < 0, z3.And(x < 0, x > -z.pi)),
                    z3.Implies(z3.And(y == 0, xx > 0), x == 0), z3.Implies(z3.And(y == 0, xx < 0), x == z.pi),
                    z3.Implies(xx > 0, z3.And(2 * x < z.pi, 2 * x > -z.pi)),
@@ -591,7 +601,7 @@ def sqrt_rules():
 def box_for(p_list, sym_box, default=None):
     """box over all atoms of the given polynomials: symbols from sym_box(name) -> (lo,hi); sqrt atoms from the range
     of their argument; returns None if some atom cannot be bounded"""
-    box = {}
+    box = dict(default or {})
     todo = set()
     for p in p_list:
         todo |= T.p_vars(p)
@@ -612,7 +622,9 @@ def box_for(p_list, sym_box, default=None):
             if not T.p_is_const(d):
                 return None
             order.append(v)
-            pending.extend(T.p_vars(n))
+            for x in T.p_vars(n):
+                if x not in box and x not in order:
+                    pending.append(x)
         else:
             return None
     import math
@@ -624,9 +636,41 @@ def box_for(p_list, sym_box, default=None):
             if all(x in box for x in T.p_vars(n)):
                 lo, hi = poly_range(n, box)
                 hi = max(hi, Fraction(0))
-                # rational upper bound of sqrt(hi)
+                lo = max(lo, Fraction(0))
+                # rational enclosure of [sqrt(lo), sqrt(hi)]
                 s = Fraction(math.isqrt(int(hi * 10**24)) + 1, 10**12)
-                box[v] = (Fraction(0), s)
+                l = Fraction(math.isqrt(int(lo * 10**24)), 10**12)
+                box[v] = (l, s)
     if any(v not in box for v in order):
         return None
     return box
+
+
+def enclose_sqrt_near1(p, sym_box, tag="xq"):
+    """sqrt(1-u) = 1 - u/2 - u^2/8 - u^3/16 - xi*(6/128)*u^4, xi in [0,1], for atoms sqrt(arg) with arg = 1-u and
+    u in [0, 1e-3] on the given symbol box (Lagrange remainder: (5/128)(1-u)^(-7/2) u^4 <= (6/128) u^4)."""
+    sub = {}
+    for v in T.p_vars(p):
+        info = T.ATOM_LIST[v]
+        if info[0] == "fn" and info[1] == "sqrt":
+            n, d = T.nf(info[2][0])
+            if not T.p_is_const(d):
+                continue
+            n = T.p_scale(n, 1 / d[()])
+            u = T.p_sub(T.p_const(1), n)
+            b = box_for([u], sym_box)
+            if b is None:
+                continue
+            lo, hi = poly_range(u, b)
+            if lo < 0 or hi > Fraction(1, 1000):
+                continue
+            xi = T.nf(T.Sym("%s!%d" % (tag, v)))[0]
+            acc = T.p_const(1)
+            acc = T.p_sub(acc, T.p_scale(u, Fraction(1, 2)))
+            acc = T.p_sub(acc, T.p_scale(T.p_pow(u, 2), Fraction(1, 8)))
+            acc = T.p_sub(acc, T.p_scale(T.p_pow(u, 3), Fraction(1, 16)))
+            acc = T.p_sub(acc, T.p_scale(T.p_mul(xi, T.p_pow(u, 4)), Fraction(6, 128)))
+            sub[v] = acc
+    if sub:
+        p = T.p_subst(p, sub)
+    return p
